@@ -200,15 +200,66 @@ def compare(mfa, d, exp, tag):
     return probs
 
 
+def pad(name):
+    """the same name with a leading or trailing blank (names are opaque strings: 'A ' is not 'A')"""
+    if not isinstance(name, str) or name in ("", "sysenv", "<empty>"):
+        return name
+    return name + " " if len(name) % 2 else " " + name
+
+
+def padded(vec):
+    """the vector with every process / stock / parameter name and every overriding flow name padded by a blank"""
+    import copy
+    d, exp = copy.deepcopy(vec["def"]), copy.deepcopy(vec["res"])
+    d["procs"] = [pad(p) for p in d["procs"]]
+    for f in d["flows"]:
+        f["from"], f["to"], f["override"] = pad(f["from"]), pad(f["to"]), pad(f["override"])
+    for s_ in d["stocks"]:
+        s_["name"], s_["proc"] = pad(s_["name"]), pad(s_["proc"])
+    for p_ in d["params"]:
+        p_["name"] = pad(p_["name"])
+    if not exp["error"]:
+        exp["procs"] = [[pad(n), i] for n, i in exp["procs"]]
+        for f in exp["flows"]:
+            f["from"], f["to"] = pad(f["from"]), pad(f["to"])
+            f["name"] = [f["name"][0]] + [pad(x) if f["name"][0] != "ids" else x for x in f["name"][1:]]
+        for s_ in exp["stocks"]:
+            s_["name"], s_["proc"] = pad(s_["name"]), pad(s_["proc"])
+        for p_ in exp["params"]:
+            p_["name"] = pad(p_["name"])
+    return d, exp
+
+
 def run_build(vec):
-    d, exp = vec["def"], vec["res"]
     problems = []
-    routes = ["manual", "manual_alias"] if d["naming"] != "arrow" else \
-        ["reader", "reader_dict", "csv", "csv_kwargs", "excel", "excel_first_sheet", "manual", "manual_alias"]
     tmp = tempfile.mkdtemp(prefix="flodym-verif-sys-")
     try:
+        problems += _run_build(vec["def"], vec["res"], tmp, "")
+        # second concretisation of the same definition: names carrying a leading / trailing blank
+        d2, exp2 = padded(vec)
+        problems += _run_build(d2, exp2, tmp, "names padded with a blank, ", routes=["reader", "csv", "manual"])
+        if not vec["res"]["error"] and d2["procs"] and d2["procs"][0] == "sysenv":
+            # "sysenv " / " sysenv" is not the system environment: refused
+            for first in ("sysenv ", " sysenv"):
+                d3 = dict(d2, procs=[first] + list(d2["procs"][1:]),
+                          flows=[dict(f, **{k: (first if f[k] == "sysenv" else f[k]) for k in ("from", "to")}) for f in d2["flows"]],
+                          stocks=[dict(s_, proc=(first if s_["proc"] == "sysenv" else s_["proc"])) for s_ in d2["stocks"]])
+                problems += _run_build(d3, {"error": True}, tmp, f"first process {first!r}, ", routes=["reader", "manual"])
+    finally:
+        shutil.rmtree(tmp, ignore_errors=True)
+    return problems[:6]
+
+
+def _run_build(d, exp, tmp, note, routes=None):
+    problems = []
+    if routes is None:
+        routes = ["manual", "manual_alias"] if d["naming"] != "arrow" else \
+            ["reader", "reader_dict", "csv", "csv_kwargs", "excel", "excel_first_sheet", "manual", "manual_alias"]
+    elif d["naming"] != "arrow":
+        routes = ["manual"]
+    if True:
         for route in routes:
-            tag = f"[{route}] {{C18}} "
+            tag = f"[{route}] {note}{{C18}} "
             try:
                 mfa = build(d, route, tmp)
                 raised = None
@@ -222,9 +273,7 @@ def run_build(vec):
                 problems.append(tag + f"valid definition raised {type(raised).__name__}: {str(raised)[:200]}")
                 continue
             problems += compare(mfa, d, exp, tag)
-    finally:
-        shutil.rmtree(tmp, ignore_errors=True)
-    return problems[:6]
+    return problems
 
 
 def run_dimfile(vec):
